@@ -62,14 +62,16 @@ def _parallel_dot_cumsum(
   """Parallel implementation of dot cumsum using lax primitives."""
   partials = _single_device_dot_cumsum(x, axis=axis, reverse=reverse)
   last_partial = lax.index_in_dim(partials, 0 if reverse else -1, axis)
-  sums = lax.all_gather(last_partial, axis_name, tiled=True)
+  # gather the shard totals along the axis being summed (not along axis 0, which
+  # is only the same thing when the summed axis is the leading one).
+  sums = lax.all_gather(last_partial, axis_name, axis=axis, tiled=True)
   axis_index = lax.axis_index(axis_name)
   op = jnp.greater if reverse else jnp.less
   total = partials
-  terms = sums[1:] if reverse else sums[:-1]
-  start = 1 if reverse else 0
-  for i, term in enumerate(terms, start=start):
-    total += op(i, axis_index) * term
+  num_shards = sums.shape[axis]
+  shards = range(1, num_shards) if reverse else range(num_shards - 1)
+  for i in shards:
+    total += op(i, axis_index) * lax.index_in_dim(sums, i, axis)
   return total
 
 
